@@ -1,6 +1,7 @@
 (* C12 - commit signatures authenticate content and author; forged commits are not merged. *)
 From Coq Require Import List Arith Bool.
 From Verif Require Import Sign SignProofs.
+From Verif Require PushLog.
 Import ListNotations.
 
 Theorem C12_signed_verifies : forall ktype st k body l,
@@ -33,3 +34,25 @@ Theorem C12_forged_not_merged : forall ktype (D : Type) merge st (s : rstate D) 
   (forall c', c' <> c -> In c' (map fst (r_blocks s')) <-> In c' (map fst (r_blocks s))).
 Proof. exact forged_not_merged. Qed.
 Print Assumptions C12_forged_not_merged.
+
+(* the push-log handler: with the identifier named by a request checked against the block it carries, the block handed
+   to the merge is the one that was verified - whatever refused blocks the store holds; the pinned handler (no check)
+   hands a refused block to the merge when a request names it and carries any verifiable block *)
+Theorem C12_pushlog_merges_the_verified_block : forall ktype (cid_of : block -> nat) (D : Type) st (s : rstate D) named b,
+  match PushLog.handle ktype cid_of D true st s named b with
+  | Some (c, hb) => c = cid_of b /\ hb = Some b /\ verify_self ktype st b <> Some false
+  | None => True
+  end.
+Proof.
+  intros ktype cid_of D st s named b.
+  pose proof (PushLog.checked_handler_merges_the_verified_block ktype cid_of D (fun d h _ _ => (d, h)) st s named b) as H.
+  destruct (PushLog.handle ktype cid_of D true st s named b) as [[c hb]|]; auto.
+Qed.
+Print Assumptions C12_pushlog_merges_the_verified_block.
+
+Theorem C12_pushlog_without_check_refuted : forall ktype (cid_of : block -> nat) (D : Type) st (s : rstate D) b f,
+  verify_self ktype st f = Some false -> verify_self ktype st b <> Some false ->
+  cid_of f <> cid_of b -> PushLog.find_block (cid_of f) (r_blocks s) = Some f ->
+  PushLog.handle ktype cid_of D false st s (cid_of f) b = Some (cid_of f, Some f).
+Proof. intros. now apply PushLog.unchecked_handler_refuted. Qed.
+Print Assumptions C12_pushlog_without_check_refuted.
